@@ -59,7 +59,9 @@ Reg(kind, e) == /\ q1' = IF kind = "pub1" THEN Append(q1, e) ELSE q1
                 /\ sb' = IF kind = "sub" THEN Append(sb, e) ELSE sb
                 /\ us' = IF kind = "unsub" THEN Append(us, e) ELSE us
 
-AppPublish(q) ==
+\* dup: the application re-sends a message it could not complete on an earlier connection and sets the DUP flag itself
+\* (4.4): a request like any other - registered, acknowledged, completed
+AppPublishD(q, dup) ==
   /\ ~half.on
   /\ nreq' = nreq + 1
   /\ wire' = <<[Pk("PUBLISH", nreq + 1, q) EXCEPT !.t = "t/app"]>>
@@ -71,7 +73,8 @@ AppPublish(q) ==
                       /\ UNCHANGED <<q1, q2, sb, us>>
                  ELSE /\ Reg(IF q = 1 THEN "pub1" ELSE "pub2", Entry(nreq + 1)) /\ UNCHANGED half
   /\ disp' = {} /\ UNCHANGED <<ping, tree, p2in>>
-  /\ Log([a |-> "apppublish", q |-> q, r |-> nreq + 1, cb |-> (nreq + 1) \notin NoCb])
+  /\ Log([a |-> "apppublish", q |-> q, r |-> nreq + 1, cb |-> (nreq + 1) \notin NoCb, dup |-> dup])
+AppPublish(q) == AppPublishD(q, FALSE)
 
 AppSubscribe(fs) ==
   /\ ~half.on
